@@ -26,6 +26,11 @@ enum Case {
     TanCL { x: i32, y: i32, r: u32, theta: u16, span: u16 },
     /// constructed tangent circles: |c1c2| = r1+r2 (outside) or |r1-r2| (inside)
     TanCC { x: i32, y: i32, r1: u32, r2: u32, theta: u16, inside: bool },
+    /// near-tangent circles, exactly representable: centre (x,y)/1024, radii 5*m/1024, second centre at distance
+    /// (r1+r2) or (r1-r2) -+ 5k*2^-30 along an axis or a 3-4-5 direction. `closer` = the side on which they cross.
+    NearCC { x: i32, y: i32, m1: u32, m2: u32, dir: u8, k: u32, crossing: bool, inner: bool },
+    /// line at distance r -+ 5k*2^-30 from the centre
+    NearCL { x: i32, y: i32, m: u32, dir: u8, k: u32, crossing: bool },
 }
 
 const TOL: f64 = 1e-7;
@@ -165,6 +170,9 @@ fn dir(theta: u16) -> (f64, f64) {
 }
 
 fn run_case(c: &Case) -> CaseResult {
+    if matches!(c, Case::NearCC { .. } | Case::NearCL { .. }) {
+        return near(c);
+    }
     let mut st = CaseStats::default();
     let desc = format!("{:?}", c);
     match c {
@@ -379,8 +387,108 @@ fn run_case(c: &Case) -> CaseResult {
             st.nontrivial = true;
             st.label("constructed-tangent-circles");
         }
+        Case::NearCC { .. } | Case::NearCL { .. } => {}
     }
     Ok(st)
+}
+
+/// unit directions with exactly representable components (times 1/5)
+const DIRS: [(f64, f64); 12] = [(5.0, 0.0), (-5.0, 0.0), (0.0, 5.0), (0.0, -5.0), (3.0, 4.0), (-3.0, 4.0), (3.0, -4.0), (-3.0, -4.0), (4.0, 3.0), (-4.0, 3.0), (4.0, -3.0), (-4.0, -3.0)];
+
+fn near(c: &Case) -> CaseResult {
+    let mut st = CaseStats::default();
+    let q = 1.0 / 1024.0;
+    let e30 = 1.0 / (1u64 << 30) as f64;
+    match c {
+        Case::NearCC { x, y, m1, m2, dir, k, crossing, inner } => {
+            let (cx, cy) = (*x as f64 * q, *y as f64 * q);
+            let (ra, rb) = (5.0 * *m1 as f64 * q, 5.0 * *m2 as f64 * q);
+            let delta = 5.0 * *k as f64 * e30;
+            let (big, small) = if ra >= rb { (ra, rb) } else { (rb, ra) };
+            // keep the radii comparable so that the radical line is well away from both tangent positions
+            if small * 2.0 < big || small < 1.0 || big > 1000.0 {
+                return Ok(st);
+            }
+            let (base, want) = if *inner {
+                if big - small < small / 2.0 {
+                    return Ok(st);
+                }
+                // inside tangency: closer than (R-r) => the small circle lies strictly inside => None; farther => two points
+                (big - small, if *crossing { KCC::Intersect } else { KCC::NoneInside })
+            } else {
+                (big + small, if *crossing { KCC::Intersect } else { KCC::NoneOutside })
+            };
+            let d = match (*inner, *crossing) {
+                (false, true) | (true, false) => base - delta,
+                _ => base + delta,
+            };
+            let u = DIRS[*dir as usize % 12];
+            let (bx, by) = (cx + d / 5.0 * u.0, cy + d / 5.0 * u.1);
+            let ca = Circle::new(Point::new(cx, cy), big);
+            let cb = Circle::new(Point::new(bx, by), small);
+            for (p, q2, order) in [(&ca, &cb, "big,small"), (&cb, &ca, "small,big")] {
+                let res = intersect_cc(p, q2);
+                let ok = matches!((&res, want), (CircleIntersection::None, KCC::NoneInside | KCC::NoneOutside) | (CircleIntersection::Intersect(..), KCC::Intersect));
+                vensure!(
+                    ok,
+                    "circle-circle/kind-near-tangency",
+                    "{:?}: circles of radius {} and {} whose centres are {:.3e} {} the tangent distance: intersect_cc({}) reported {}, exact geometry says {:?} (gap is {:.0} times the library tolerance)",
+                    c, big, small, delta, if d > base { "beyond" } else { "short of" }, order, kind_cc(&res), want, delta / 1e-9
+                );
+                let n = res.into_iter().count();
+                vensure!(n == if want == KCC::Intersect { 2 } else { 0 }, "circle-circle/point-count", "{:?}: {} points for kind {:?}", c, n, want);
+            }
+            st.nontrivial = true;
+            st.label("near-tangent-circles");
+            if delta < 1e-6 {
+                st.label("gap-below-1e-6");
+            }
+        }
+        Case::NearCL { x, y, m, dir, k, crossing } => {
+            let (cx, cy) = (*x as f64 * q, *y as f64 * q);
+            let r = 5.0 * *m as f64 * q;
+            if r < 1.0 || r > 1000.0 {
+                return Ok(st);
+            }
+            let delta = 5.0 * *k as f64 * e30;
+            let dist = if *crossing { r - delta } else { r + delta };
+            let u = DIRS[*dir as usize % 12];
+            let foot = (cx + dist / 5.0 * u.0, cy + dist / 5.0 * u.1);
+            let (p, q2) = ((foot.0 - u.1, foot.1 + u.0), (foot.0 + 2.0 * u.1, foot.1 - 2.0 * u.0));
+            let circle = Circle::new(Point::new(cx, cy), r);
+            for (a, b) in [(p, q2), (q2, p)] {
+                let line = Line::between(&Point::new(a.0, a.1), &Point::new(b.0, b.1));
+                let res = intersect_cl(&circle, &line);
+                let (name, n) = match &res {
+                    CircleLineIntersection::None => ("None", 0),
+                    CircleLineIntersection::Touch(_) => ("Touch", 1),
+                    CircleLineIntersection::Intersect(..) => ("Intersect", 2),
+                };
+                let want = if *crossing { 2 } else { 0 };
+                vensure!(
+                    n == want,
+                    "circle-line/kind-near-tangency",
+                    "{:?}: line at distance r {} {:.3e} from the centre of a circle of radius {}: intersect_cl reported {}, exact geometry says {} points (gap is {:.0} times the library tolerance)",
+                    c, if *crossing { "-" } else { "+" }, delta, r, name, want, delta / 1e-9
+                );
+            }
+            st.nontrivial = true;
+            st.label("near-tangent-line");
+        }
+        _ => {}
+    }
+    Ok(st)
+}
+
+fn near_cases() -> impl Strategy<Value = Case> {
+    let coord = || prop_oneof![-1_000_000i32..=1_000_000, -2048i32..=2048, Just(0i32)];
+    let m = || prop_oneof![205u32..=204_800, 205u32..=4_000, 100_000u32..=204_800];
+    // gap 5k*2^-30: from 1.9e-8 (19 x the tolerance) to 7.6e-5, roughly log-uniform
+    let k = || (2u32..=14, 0u32..1024).prop_map(|(e, f)| ((1u32 << e) + (f * (1u32 << e) / 1024)).max(4));
+    prop_oneof![
+        3 => (coord(), coord(), m(), m(), 0u8..12, k(), any::<bool>(), any::<bool>()).prop_map(|(x, y, m1, m2, dir, k, crossing, inner)| Case::NearCC { x, y, m1, m2, dir, k, crossing, inner }),
+        2 => (coord(), coord(), m(), 0u8..12, k(), any::<bool>()).prop_map(|(x, y, m, dir, k, crossing)| Case::NearCL { x, y, m, dir, k, crossing }),
+    ]
 }
 
 fn lat(r: i32) -> impl Strategy<Value = P2> {
@@ -440,14 +548,14 @@ fn main() {
          points / same; none / touch / two points; parallel or not; inside/border/outside; on line or not) is decided exactly in integer \
          arithmetic, and non-degenerate lattice gaps are >= 3.9e-7 >> the library's 1e-9; (ii) real-valued configurations in milli-units \
          (coordinates +-1e3, radii 1e-2..1e3) constructed at least 2% of the radius sum (>= 2e-3) away from every kind boundary, so the \
-         expected kind is unambiguous and the chord well conditioned; (iii) constructed tangencies at arbitrary positions and angles. \
+         expected kind is unambiguous and the chord well conditioned; (iii) constructed tangencies at arbitrary positions and angles; (iv) near-tangent configurations built from exactly representable binary fractions (centres k/1024, radii 5m/1024 in [1,1000], comparable radii, axis and 3-4-5 directions) whose gap to tangency is 5k*2^-30 in [1.9e-8, 7.6e-5] - 19 to 76000 times the library tolerance - on either side: only the kind and the number of points are judged there. \
          Oracle: reported kind = exact kind; every reported point within 1e-7 of every circle and of every line (line coefficients \
          recomputed by the harness from the defining points); two-point results match the exact chord within 1e-6; one point for touch \
          kinds (within 1e-6 of the constructed tangency where known), none for none/same; both argument orders / line directions. \
          Non-trivial = tangent configurations, and two-point configurations whose circle is not centred at the origin. Distinct = \
          distinct (sub-check, case).",
     );
-    ctx.assume("near-tangent real-valued configurations with gaps between 1e-9 and 2e-3 are not generated (DESIGN §6.2)");
+    ctx.assume("general real-valued configurations keep >= 2e-3 from kind boundaries; gaps down to 1.9e-8 are explored only with exactly representable constructions and judged on kind/count only (DESIGN §6.2)");
     ctx.replayer("geometry-case", |v| run_case(&serde_json::from_value::<Case>(v.clone()).expect("case")));
     ctx.begin();
     let e = ctx.n(4, 6) as i32;
@@ -457,5 +565,6 @@ fn main() {
     ctx.exhaustive("lattice-circle-pairs", "geometry-case", &format!("all unordered pairs of circles with centre in [-{e},{e}]^2 and radius 1..={e}"), true, pairs, run_case);
     ctx.prop_split("lattice-generated", "geometry-case", ctx.n(250_000, 5_000_000), ctx.parts(), lattice_cases(ctx.n(12, 40) as i32).boxed(), run_case);
     ctx.prop("real-valued-and-tangencies", "geometry-case", ctx.n(25_000, 600_000), real_cases(), run_case);
+    ctx.prop_split("near-tangencies-exactly-representable", "geometry-case", ctx.n(30_000, 800_000), ctx.parts(), near_cases().boxed(), run_case);
     ctx.finish();
 }
